@@ -549,6 +549,55 @@ def _criteria(spec, model):
     return {'confirmed': False, 'error': 'case not found'}
 
 
+def like_named_material_cases():
+    """a material stored without properties in the target file, a like-named material with properties uploaded to another file
+    earlier in the session (or only registered in the session): the isotherm retrieved from the target file equals the stored one"""
+    import pygaps
+    import pygaps.parsing.sqlite as S
+    from pgv.checks import c09
+    pygaps.logger.disabled = True
+    units = dict(pressure_mode='absolute', pressure_unit='bar', loading_basis='molar', loading_unit='mmol', material_basis='mass', material_unit='g', temperature_unit='K')
+    for tag in ('uploaded_to_another_file', 'registered_in_the_session'):
+        tmp = tempfile.mkdtemp(prefix='pgv-c08l-')
+        reg0 = c09._registries()
+        probs = []
+        try:
+            tpl = empty_template(tmp)
+            a, b = os.path.join(tmp, 'A.db'), os.path.join(tmp, 'B.db')
+            shutil.copyfile(tpl, a)
+            shutil.copyfile(tpl, b)
+            if tag == 'uploaded_to_another_file':
+                S.material_to_db(pygaps.Material('pgv_like', comment='from A', density=1.5), db_path=a, verbose=False)
+            else:
+                pygaps.MATERIAL_LIST.append(pygaps.Material('pgv_like', comment='session', density=1.5))
+            S.adsorbate_to_db(pygaps.Adsorbate('pgv_like_a'), db_path=b, verbose=False)
+            S.material_to_db(pygaps.Material('pgv_like'), db_path=b, verbose=False)
+            iso = pygaps.core.baseisotherm.BaseIsotherm(material=pygaps.Material('pgv_like'), adsorbate='pgv_like_a', temperature=300.0, **units)
+            S.isotherm_to_db(iso, db_path=b, verbose=False)
+            got = S.isotherms_from_db(db_path=b, verbose=False)
+            if len(got) != 1 or not (got[0] == iso):
+                mats = [dict(getattr(g.material, 'properties', {})) for g in got]
+                probs.append(f"{len(got)} retrieved, material properties {mats}, stored ones {{}}")
+            else:
+                S.isotherm_delete_db(got[0], db_path=b, verbose=False)
+                if S.isotherms_from_db(db_path=b, verbose=False):
+                    probs.append('not deleted through the retrieved isotherm')
+        except Exception as exc:
+            probs.append(f"{type(exc).__name__}: {exc}"[:160])
+        finally:
+            c09._restore(reg0)
+            shutil.rmtree(tmp, ignore_errors=True)
+        yield {'name': f"two_files|material_without_properties|like_named_one_{tag}", 'ok': not probs, 'detail': '; '.join(probs), 'ops': None}
+
+
+@replayer('c08.like_named')
+def _like_named(spec, model):
+    for r in like_named_material_cases():
+        if r['name'] == spec['name']:
+            return {'confirmed': not r['ok'], 'observed': r['detail'], 'expected': 'the isotherm as stored in the target file'}
+    return {'confirmed': False, 'error': 'case not found'}
+
+
 @replayer('c08.refused_midway')
 def _refused_midway(spec, model):
     bad = [r for r in refused_midway_cases() if not r['ok']]
@@ -635,6 +684,7 @@ def history_cases(seed, thorough=False):
     yield from refused_midway_cases()
     yield from odd_path_cases()
     yield from criteria_cases()
+    yield from like_named_material_cases()
     hs, two = histories(seed, thorough)
     items = [(1, h) for h in hs] + [(2, h) for h in two]
     res, crashes = par.pmap(run_chunk, par.chunks(items, 32))
